@@ -40,7 +40,11 @@ MANIFEST = dict(
           "output_calls_leave_no_trace + render_depends_on_current_tree_only (sessions of edits and output calls: an output call returns "
           "what it returns on the documents produced by the edits alone, flavour taken from the element's current position); "
           "copy_renders_like_original / copy_keeps_flavour_everywhere / flavour_is_positional (copy_self records is_xml=self._is_xml: a "
-          "copy, detached or put anywhere, renders like its original did where it stood); builder side "
+          "copy, detached or put anywhere, renders like its original did where it stood); subclass_defaults_take_effect / "
+          "subclass_option_effects (_default reads HTML_DEFAULTS of the class in use: user subclasses declaring their own table); "
+          "hidden_free_refinement / hidden_tag_is_transparent / indentation_survives_hidden_tags (Model/FormatterHidden.lean: a "
+          "user-hidden tag writes nothing, its contents stand one level deeper, what follows keeps its level, no line is indented less "
+          "than the receiver's level); builder side "
           "(code-mirror of handle_starttag's attribute dict incl. on_duplicate_attribute, _replace_cdata_list_attribute_values, "
           "can_be_empty_element, preserve_whitespace_tags): builder_sets_are_sets / builder_listing_order_irrelevant (empty_element_tags, "
           "preserve_whitespace_tags, cdata_list_attributes and the sets in it are consulted through membership/lookup only: equivalent "
@@ -54,7 +58,9 @@ MANIFEST = dict(
           "base_attributes_ignore_insertion_order; non_str_attribute_values_are_substituted (AttrVal.other: a value that is not a str is "
           "stringified before the substitution, and is never a boolean attribute). Every theorem with hypotheses is instantiated on concrete data. Tie: the constructor grid, formatter_for_name grid and "
           "rendering through every entry point on generated trees of both flavours, three-way: real code / direct oracle / Lean model; "
-          "instrumented custom functions; all attribute insertion orders; attribute values that are not str at rendering time (int, float, "
+          "instrumented custom functions; all attribute insertion orders; 8 user-subclass forms with their own HTML_DEFAULTS among the "
+          "class forms of every stream; user-hidden tags (plain, void, whitespace-preserving; 30 % of the random trees and a fixed grid "
+          "over every indent value) through driver op runh; attribute values that are not str at rendering time (int, float, "
           "bool, Decimal, PurePosixPath, a URL-like object; set on built and on parsed tags, i.e. held raw in a plain AttributeDict) in "
           "every stream; histories (hand-made builder-less elements put into a tree of one "
           "flavour, read-only operations there, moved into a tree of another flavour, rendered from the element, its descendants, its "
@@ -153,7 +159,41 @@ EAB_VALUES = [False, True]
 # ("d",) default, ("i", n) int, ("s", str), ("N",) None, ("b", bool), ("f", 2.5) float, ("l",) a list object
 INDENT_VALUES = [("i", 0), ("i", 1), ("i", 2), ("i", 3), ("i", 4), ("i", 7), ("i", -1), ("i", -5), ("s", ""), ("s", "\t"), ("s", "xy"),
                  ("s", "  "), ("N",), ("b", True), ("b", False), ("f", 2.5), ("l",)]
-CLASSES = ["F", "Fh", "Fx", "H", "X"]   # Formatter(), Formatter(HTML), Formatter(XML), HTMLFormatter, XMLFormatter
+STOCK = ["F", "Fh", "Fx", "H", "X"]   # Formatter(), Formatter(HTML), Formatter(XML), HTMLFormatter, XMLFormatter
+# user subclasses declaring their own class-level HTML_DEFAULTS (documented, public): <stock form>@<names> ; a trailing ^ = one more
+# (empty) subclass level below the declaring one
+SUBCLASSES = ["H@p;b", "H@", "Fh@style;pre", "F@div", "Fx@p", "X@p;b", "H@script;p^", "F@b^"]
+CLASSES = STOCK + SUBCLASSES
+
+
+def cls_base(code):
+    return code.split("@")[0]
+
+
+def cls_html_defaults(code):
+    """the class's HTML_DEFAULTS['cdata_containing_tags'] as the property reads it"""
+    if "@" not in code:
+        return PROP_HTML_CDATA
+    return tuple(sorted(x for x in code.split("@")[1].rstrip("^").split(";") if x))
+
+
+_CLS = {}
+
+
+def cls_object(code):
+    """-> (class object, leading positional arguments)"""
+    fm = E()["fm"]
+    base = cls_base(code)
+    stock = {"F": fm.Formatter, "Fh": fm.Formatter, "Fx": fm.Formatter, "H": fm.HTMLFormatter, "X": fm.XMLFormatter}[base]
+    lead = {"F": [None], "Fh": [fm.Formatter.HTML], "Fx": [fm.Formatter.XML], "H": [], "X": []}[base]
+    if "@" not in code:
+        return stock, lead
+    if code not in _CLS:
+        c = type("Sub_" + str(len(_CLS)), (stock,), {"HTML_DEFAULTS": dict(cdata_containing_tags=set(cls_html_defaults(code)))})
+        if code.endswith("^"):
+            c = type("SubSub_" + str(len(_CLS)), (c,), {})
+        _CLS[code] = c
+    return _CLS[code], lead
 
 
 def indent_value(iv):
@@ -203,27 +243,18 @@ def build_formatter(spec):
         kw["empty_attributes_are_booleans"] = o["eab"]
     if "indent" in o:
         kw["indent"] = indent_value(tuple(o["indent"]))
-    cls = spec["cls"]
+    klass, lead = cls_object(spec["cls"])
     if spec.get("positional"):
         # every parameter positionally, in signature order, with the signature's defaults for those not in the spec
         order = ["entity_substitution", "void_element_close_prefix", "cdata_containing_tags", "empty_attributes_are_booleans", "indent"]
         dflt = {"entity_substitution": None, "void_element_close_prefix": "/", "cdata_containing_tags": None,
                 "empty_attributes_are_booleans": False, "indent": 1}
-        args = [kw.get(k, dflt[k]) for k in order]
-        if cls == "F":
-            return fm.Formatter(None, *args)
-        if cls == "Fh":
-            return fm.Formatter(fm.Formatter.HTML, *args)
-        if cls == "Fx":
-            return fm.Formatter(fm.Formatter.XML, *args)
-        return (fm.HTMLFormatter if cls == "H" else fm.XMLFormatter)(*args)
-    if cls == "F":
-        return fm.Formatter(**kw)
-    if cls == "Fh":
-        return fm.Formatter(language=fm.Formatter.HTML, **kw)
-    if cls == "Fx":
-        return fm.Formatter(fm.Formatter.XML, **kw)
-    return (fm.HTMLFormatter if cls == "H" else fm.XMLFormatter)(**kw)
+        return klass(*lead, *[kw.get(k, dflt[k]) for k in order])
+    if cls_base(spec["cls"]) == "F":
+        return klass(**kw)
+    if cls_base(spec["cls"]) == "Fh":
+        return klass(language=lead[0], **kw)
+    return klass(*lead, **kw)
 
 
 def prop_indent(iv):
@@ -246,10 +277,10 @@ def prop_indent(iv):
 def intended(spec):
     """the options the caller asked for, as the property understands them -> dict(es, vecp, cdata(tuple), eab, indent(str), xml_lang)"""
     o = spec["opts"]
-    xml = spec["cls"] in ("Fx", "X")
+    xml = cls_base(spec["cls"]) in ("Fx", "X")
     cd = o.get("cdata")
     return {"es": o.get("es"), "vecp": o.get("vecp", "/"),
-            "cdata": tuple(sorted(cd)) if cd is not None else (() if xml else PROP_HTML_CDATA),
+            "cdata": tuple(sorted(cd)) if cd is not None else (() if xml else cls_html_defaults(spec["cls"])),
             "eab": bool(o.get("eab", False)), "indent": prop_indent(tuple(o.get("indent", ("d",)))), "lang": "x" if xml else "h"}
 
 
@@ -286,8 +317,12 @@ def cfg_tok(a):
 
 def ctor_fmt_tok(spec, old=False):
     o = spec["opts"]
-    cls = {"F": "F", "Fh": "F", "Fx": "F", "H": "HO" if old else "H", "X": "XO" if old else "X"}[spec["cls"]]
-    lang = {"F": "N", "Fh": "h", "Fx": "x", "H": "N", "X": "N"}[spec["cls"]]
+    base = cls_base(spec["cls"])
+    cls = {"F": "F", "Fh": "F", "Fx": "F", "H": "HO" if old else "H", "X": "XO" if old else "X"}[base]
+    if "@" in spec["cls"]:
+        hd = cls_html_defaults(spec["cls"])
+        cls += "@" + (";".join(ptok(x) for x in hd) if hd else "E")
+    lang = {"F": "N", "Fh": "h", "Fx": "x", "H": "N", "X": "N"}[base]
     cd = o.get("cdata")
     return "/".join(["k", cls, lang, es_tok(o.get("es")), "N" if o.get("vecp", "/") is None else ptok(o.get("vecp", "/")),
                      "N" if cd is None else (";".join(ptok(x) for x in sorted(cd)) if cd else "E"),
@@ -359,6 +394,12 @@ def build_tree(recipe):
             mk(k, t)
     for spec in recipe.get("nodes") or []:
         mk(spec, soup)
+    # user-hidden tags: tag.hidden = True on the tags with these indices among soup.find_all(True)
+    if recipe.get("hide"):
+        tags = soup.find_all(True)
+        for ti in recipe["hide"]:
+            if tags:
+                tags[ti % len(tags)].hidden = True
     # values assigned to PARSED tags afterwards (tag[key] = obj): [[index of the tag among soup.find_all(True), key, value]]
     if recipe.get("set"):
         tags = soup.find_all(True)
@@ -503,11 +544,12 @@ def val_tok(v):
 
 def tree_tokens(n):
     out = []
+    top = n
 
     def rec(n):
         if is_tag(n):
             pw = n.preserve_whitespace_tags
-            out.append("T %s %s %d %d %d" % (ptok(n.name), ptok(n.prefix or ""), 1 if n.can_be_empty_element is True else 0,
+            out.append("%s %s %s %d %d %d" % ("TH" if (n.hidden and n is not top) else "T", ptok(n.name), ptok(n.prefix or ""), 1 if n.can_be_empty_element is True else 0,
                                               1 if (pw and n.name in pw) else 0, len(n.attrs)))
             for k, v in n.attrs.items():
                 out.append(f"{ptok(k)} {val_tok(v)}")
@@ -579,6 +621,8 @@ class Oracle:
     def node(self, n, parent_name):
         if not is_tag(n):
             return self.string(n, parent_name)
+        if n.hidden:      # a hidden tag is invisible, its contents are not
+            return "" if (not n.contents and n.can_be_empty_element is True) else self.contents(n)
         if not n.contents and n.can_be_empty_element is True:
             return self.open_tag(n, True)
         return self.open_tag(n, False) + self.contents(n) + self.close_tag(n)
@@ -595,6 +639,12 @@ class Oracle:
                 return piece
             piece = piece.strip()
             return ind + piece + "\n" if piece else ""
+        if n.hidden:
+            # no line for the tag itself; it still is a level: its contents are one level deeper and what follows it is not affected
+            if not n.contents and n.can_be_empty_element is True:
+                return ""
+            pw_ = n.preserve_whitespace_tags
+            return self.pcontents(n, level + 1, literal or bool(pw_ and n.name in pw_))
         if not n.contents and n.can_be_empty_element is True:
             piece = self.open_tag(n, True)
             return piece if literal else ind + piece + "\n"
@@ -674,7 +724,7 @@ def oracle_entry(n, entry, opts, level=2, log=None):
         return ("EXC", "KeyError")
     o = Oracle(opts, log)
     root = is_tag(n) and n.hidden
-    decl = XML_DECL if (root and getattr(n, "is_xml", False)) else ""
+    decl = XML_DECL if (type(n).__name__ == "BeautifulSoup" and n.is_xml) else ""
     pn = n.parent.name if n.parent is not None else None
     if entry in ("decode", "encode", "str"):
         return decl + o.contents(n) if root else o.node(n, pn)
@@ -698,7 +748,7 @@ def oracle_entry(n, entry, opts, level=2, log=None):
 def model_mode(n, entry, level=2):
     """-> (mode token, prefix the harness adds, parent token)"""
     root = is_tag(n) and n.hidden
-    decl = XML_DECL if (root and getattr(n, "is_xml", False)) else ""
+    decl = XML_DECL if (type(n).__name__ == "BeautifulSoup" and n.is_xml) else ""
     pt = "N" if n.parent is None else ptok(n.parent.name)
     if entry in ("decode", "encode", "str", "output_ready"):
         return ("C" if root else "D"), decl, pt
@@ -975,7 +1025,9 @@ def check_render(ctx, batch, recipe, soup, path, fs, entry, stream, level=2):
     mfs = fs if entry != "str" else {"how": "name", "name": "minimal"}
     mode, prefix, pt = model_mode(n, entry, level)
     g = graph_tokens(n, GRAPH_FNS)
-    batch.add(f"c15 run {1 if xml else 0} {fmt_tok(mfs)} {mode} {pt} {len(g)} {' '.join(g)} {tree_tokens(n)}".replace("  ", " "),
+    tt = tree_tokens(n)
+    op = "runh" if "TH " in tt else "run"
+    batch.add(f"c15 {op} {1 if xml else 0} {fmt_tok(mfs)} {mode} {pt} {len(g)} {' '.join(g)} {tt}".replace("  ", " "),
               real, prefix, case, ok)
     return ok
 
@@ -984,8 +1036,11 @@ def stream_render(ctx, batch, ntrees):
     r = ctx.rng("render")
     for i in range(ntrees):
         recipe = gen_recipe(r, i)
+        if r.random() < 0.3:
+            recipe["hide"] = [r.randrange(40) for _ in range(r.choice([1, 1, 2, 3]))]
         soup = build_tree(recipe)
         nodes = all_nodes(soup)
+        ctx.count("tree:with-hidden-tags" if recipe.get("hide") else "tree:no-hidden-tags")
         tags = [(n, p) for n, p in nodes if is_tag(n)]
         strs = [(n, p) for n, p in nodes if not is_tag(n)]
         ctx.count(f"flavour:{recipe['flavour']}")
@@ -1030,13 +1085,28 @@ def stream_option_grid(ctx, batch):
         soup = build_tree(recipe)
         for cls in CLASSES:
             grid = [{}]
-            grid += [{"es": v} for v in ES_VALUES] + [{"es": "xml", "vecp": v} for v in VECP_VALUES]
-            grid += [{"es": "c2", "cdata": v} for v in CDATA_VALUES] + [{"es": "html", "eab": v} for v in EAB_VALUES]
-            grid += [{"es": "xml", "indent": list(v)} for v in INDENT_VALUES]
+            grid += [{"es": v} for v in ES_VALUES] + [{"es": "c2", "cdata": v} for v in CDATA_VALUES]
+            if cls in STOCK:     # (a subclass form differs from its stock class in the cdata default only)
+                grid += [{"es": "xml", "vecp": v} for v in VECP_VALUES] + [{"es": "html", "eab": v} for v in EAB_VALUES]
+                grid += [{"es": "xml", "indent": list(v)} for v in INDENT_VALUES]
+            else:
+                grid += [{"es": "xml", "vecp": ""}, {"es": "html", "eab": True}, {"es": "xml", "indent": ["i", 3]}, {"es": "xml", "indent": ["s", "\t"]}]
             for o in grid:
                 fs = {"how": "obj", "spec": {"cls": cls, "opts": o}}
                 for entry, path in (("decode", ()), ("prettify", ()), ("prettify", (1,)), ("decode_contents", (1,)), ("contents-level", (1,))):
                     check_render(ctx, batch, recipe, soup, path, fs, entry, "option-grid", level=2)
+        # the same document with user-hidden tags (a plain one, a void one, a whitespace-preserving one) followed by more content:
+        # every indent value x every class form x prettify/decode of the root, of the parent of the hidden tags, of a hidden tag
+        recipe_h = dict(recipe, hide=[2, 1, 4, 7])  # <p>, <br>, <pre>, <ul> among find_all(True) = div br p script pre b b ul li
+        soup_h = build_tree(recipe_h)
+        for cls in STOCK + SUBCLASSES[:2]:
+            for v in INDENT_VALUES:
+                fs = {"how": "obj", "spec": {"cls": cls, "opts": {"es": "xml", "indent": list(v)}}}
+                for entry, path in (("prettify", ()), ("prettify", (1,)), ("contents-level", (1,)), ("prettify", (1, 2)), ("decode", (1,))):
+                    check_render(ctx, batch, recipe_h, soup_h, path, fs, entry, "option-grid", level=2)
+        for nm in PROP_REGISTRY[False]:
+            check_render(ctx, batch, recipe_h, soup_h, (), {"how": "name", "name": nm}, "prettify", "option-grid")
+        check_render(ctx, batch, recipe_h, soup_h, (1,), {"how": "fn", "es": "c0"}, "prettify", "option-grid")
         for nm in PROP_REGISTRY[False]:
             for entry in ("decode", "prettify"):
                 check_render(ctx, batch, recipe, soup, (), {"how": "name", "name": nm}, entry, "option-grid")
@@ -1055,7 +1125,7 @@ def stream_call_log(ctx, ntrees):
         recipe = gen_recipe(r, i)
         soup = build_tree(recipe)
         xml = bool(soup.is_xml)
-        cd = r.choice(CDATA_VALUES)
+        cd = r.choice(CDATA_VALUES + [None, None])
         eab = r.choice(EAB_VALUES)
         cls = r.choice(CLASSES)
         how = r.choice(["obj", "obj", "fn"])
@@ -1072,8 +1142,8 @@ def stream_call_log(ctx, ntrees):
             spec = {"cls": cls, "opts": {"es": "c2", "cdata": cd, "eab": eab}}
             kw = dict(entity_substitution=spy, cdata_containing_tags=None if cd is None else set(cd), empty_attributes_are_booleans=eab)
             fm = e["fm"]
-            farg = {"F": lambda: fm.Formatter(**kw), "Fh": lambda: fm.Formatter(fm.Formatter.HTML, **kw),
-                    "Fx": lambda: fm.Formatter(fm.Formatter.XML, **kw), "H": lambda: fm.HTMLFormatter(**kw), "X": lambda: fm.XMLFormatter(**kw)}[cls]()
+            klass, lead = cls_object(cls)
+            farg = klass(*lead, **kw) if cls_base(cls) != "F" else klass(**kw)
             opts = intended(spec)
             mfs = {"how": "obj", "spec": spec}
         tags = [p for n, p in all_nodes(soup) if is_tag(n)]
